@@ -1,0 +1,27 @@
+//go:build verif
+
+// Contracts for the deductive verifier in /verif (govc). This file contains no code: with the
+// build tag off it is not part of the package, with it on it adds nothing to the build.
+package utils
+
+//@ import sdk "github.com/cosmos/cosmos-sdk/types"
+//@ import authante "github.com/cosmos/cosmos-sdk/x/auth/ante"
+//@ import constants "github.com/EscanBE/evermint/v12/constants"
+
+// The lane predicate. single(t) (prelude/40_ante_tx.spec): the tx has exactly one message and it is a *MsgEthereumTx.
+// Every dual-lane / lane-only decorator branches on this function, so "exactly one lane per tx" rests on this clause.
+//@ func HasSingleEthereumMessage(tx sdk.Tx) bool
+//@   modifies nothing
+//@   ensures[C07.iff_single,C06.iff_single,C09.iff_single,C16.iff_single] result == single(payload(tx))
+//@   panics only_if tx == nil || !txUnpacked(payload(tx))
+//@ loop 1
+//@   invariant -1 <= rangeindex && rangeindex <= 0 && rangeindex < txNMsgs(payload(tx)) && foundEthMsg == (rangeindex == 0) && (rangeindex == 0 ==> isEthMsgAt(payload(tx), 0))
+
+// ethShape: single Ethereum message and, when the tx type can carry extension options at all, no non-critical option
+// and either no option or exactly one with the Ethereum extension type URL.
+//@ ghost func ethShape(t ref, tag int) bool = single(t) && (implements(tag, type(authante.HasExtensionOptionsTx)) ==> (txNNonCrit(t) == 0 && (txNExt(t) == 0 || (txNExt(t) == 1 && anyUrl(txExt(t, 0)) == constants.EthermintExtensionOptionsEthereumTx))))
+
+//@ func IsEthereumTx(tx sdk.Tx) bool
+//@   modifies nothing
+//@   ensures[C07.iff_shape] result == ethShape(payload(tx), typeof(tx))
+//@   panics only_if tx == nil || !txUnpacked(payload(tx))
